@@ -108,6 +108,12 @@ class Universe:
             "cell": ufl.dx,
             "exterior_facet": ufl.ds,
             "interior_facet": ufl.dS,
+            # the measures of extruded meshes: the same kinds of facets under other names
+            "interior_facet_horiz": ufl.dS_h,
+            "interior_facet_vert": ufl.dS_v,
+            "exterior_facet_top": ufl.ds_t,
+            "exterior_facet_bottom": ufl.ds_b,
+            "exterior_facet_vert": ufl.ds_v,
             "vertex": ufl.dP,
             "ridge": getattr(ufl, "dr", None),
         }[self.itype]
